@@ -509,11 +509,16 @@ def p5_merge_outputs_before_unlink(ctx):
         for cbb2, _t in [(x, None) for x in {bi for bi, si in m.W_assign} | {bi for bi, si in m.H_assign}]:
             starts.add(cbb2)
         classes = set()
+        passthrough = False
         for sbb in starts:
-            classes |= {c for c, d, rb in ret_classes(b, sbb, lambda e: e.kind == "unwind" or (e.src, e.dst) in rok)}
+            for c, d, rb in ret_classes(b, sbb, lambda e: e.kind == "unwind" or (e.src, e.dst) in rok):
+                if c == "pass" and d == (rbb, "T"):
+                    passthrough = True  # `self.new_active_datafile(..)` returned as is: Ok only if it rotated
+                    continue
+                classes.add(c)
         leak = [c for c in classes if c not in ("err", "unwind")]
-        r.add(f, "P16: every Ok return rotated the active file (new_active_datafile ok)", bool(rok) and not leak, where(b, rbb), "" if not leak else "the merge can return Ok while the writer keeps appending to a file whose id is below the merge outputs — recovery would replay later writes before the merged copies")
-        ao = arg_origin(b, rt, 1)
+        r.add(f, "P16: every Ok return rotated the active file (new_active_datafile ok)", (bool(rok) or passthrough) and not leak, where(b, rbb), "" if not leak else "the merge can return Ok while the writer keeps appending to a file whose id is below the merge outputs — recovery would replay later writes before the merged copies")
+        ao = peel_var(arg_origin(b, rt, 1))
         idp = [i for bb, k, i in m.creates if k == "datafile_name"]
         s = origin_str(ao)
         good = bool(idp) and all(("var:" + i.split("var:")[-1]) in s or i in s for i in idp) and "Add" in s and "const 1" in s
